@@ -52,12 +52,13 @@ var c03Exemptions = map[string]string{
 }
 
 type c03 struct {
-	c        *Ctx
-	nn       *nonNeg
-	scope    map[*ssa.Function]bool
-	decode   map[*ssa.Function]bool
-	serial   map[*ssa.Function]*ssa.Parameter // serializer function -> its output buffer parameter
-	serialOK map[*ssa.Function]string
+	helperDepth int
+	c           *Ctx
+	nn          *nonNeg
+	scope       map[*ssa.Function]bool
+	decode      map[*ssa.Function]bool
+	serial      map[*ssa.Function]*ssa.Parameter // serializer function -> its output buffer parameter
+	serialOK    map[*ssa.Function]string
 }
 
 func runC03(c *Ctx) {
@@ -382,6 +383,48 @@ func (x *c03) dischargeBounds(f *ssa.Function, ins []ssa.Instruction, s residueS
 			return "", fmt.Sprintf("binary.%s reads %d bytes of a slice without a dominating length guard", o.Name(), need), shape
 		}
 	}
+	// a call of a small module function the compiler inlined here: the check belongs to the callee's body;
+	// every index / slice expression of the callee has to discharge in the callee
+	for _, in := range ins {
+		call, ok := in.(*ssa.Call)
+		if !ok {
+			continue
+		}
+		g := flow.StaticCallee(call)
+		if g == nil || g.Blocks == nil || !x.c.P.InModule(pkgOf(g)) || len(ins) != 1 {
+			continue
+		}
+		shape = "inlined:" + g.Name()
+		all, n, first := true, 0, ""
+		flow.Instrs(g, func(y ssa.Instruction) {
+			var h, w string
+			switch v := y.(type) {
+			case *ssa.Slice:
+				h, w = x.dischargeSlice(g, v)
+			case *ssa.IndexAddr:
+				if _, isArr := v.X.Type().Underlying().(*types.Pointer); isArr {
+					return
+				}
+				h, w = x.dischargeIndex(g, v, v.X, v.Index)
+			case *ssa.Index:
+				h, w = x.dischargeIndex(g, v, v.X, v.Index)
+			default:
+				return
+			}
+			n++
+			if h == "" {
+				all = false
+				if why == "" {
+					why = "in the inlined " + g.Name() + ": " + w
+				}
+			} else if first == "" {
+				first = h
+			}
+		})
+		if n > 0 && all {
+			return first + " (check inside the inlined " + g.Name() + ")", "", shape
+		}
+	}
 	for _, in := range ins {
 		switch v := in.(type) {
 		case *ssa.Slice:
@@ -451,6 +494,44 @@ func (x *c03) serializerSite(f *ssa.Function, base ssa.Value) string {
 	}
 	p, ok := x.serial[f]
 	if !ok {
+		// a helper of a serialiser: the buffer is one of its parameters, and every library call site hands it
+		// (a slice of) a serialiser's output buffer
+		v := base
+		for i := 0; i < 8; i++ {
+			if pp, isP := v.(*ssa.Parameter); isP && pp.Parent() == f && x.helperDepth < 2 {
+				idx := paramIndex(f, pp)
+				n, how := 0, ""
+				for _, g := range x.c.P.ModuleFuncs() {
+					for _, ci := range flow.CallInstrs(g) {
+						if flow.StaticCallee(ci) != f || idx >= len(ci.Common().Args) {
+							continue
+						}
+						n++
+						x.helperDepth++
+						h := x.serializerSite(g, ci.Common().Args[idx])
+						x.helperDepth--
+						if h == "" {
+							return ""
+						}
+						how = h
+					}
+				}
+				if n > 0 && (f.Object() == nil || !f.Object().Exported()) {
+					return how + " — through the helper " + f.Name()
+				}
+				return ""
+			}
+			switch y := v.(type) {
+			case *ssa.Slice:
+				v = y.X
+			case *ssa.Phi:
+				if len(y.Edges) > 0 {
+					v = y.Edges[0]
+				}
+			default:
+				return ""
+			}
+		}
 		return ""
 	}
 	// base derives from the buffer parameter through slicing / phi
